@@ -91,6 +91,9 @@ enum Src {
     Once(V),
     RepInf(V),
     HostBytes(usize),
+    /// a slice of a longer tuple / string (the iterators work relative to the slice bounds)
+    TupleSlice(Vec<V>),
+    StrSlice(String),
 }
 
 #[derive(Clone, Debug, PartialEq)]
@@ -370,6 +373,17 @@ fn render_src(s: &Src, id: usize, defs: &mut Vec<String>) -> (String, String) {
         Src::Rep(v, n) => (format!("iterator.repeat({}, {})", v.koto(), n), format!("(rep {} {})", v.canon(), n)),
         Src::Once(v) => (format!("iterator.once({})", v.koto()), format!("(rep {} 1)", v.canon())),
         Src::RepInf(v) => (format!("iterator.repeat({})", v.koto()), format!("(repinf {})", v.canon())),
+        Src::TupleSlice(xs) => {
+            let mut all = vec![V::I(-7)];
+            all.extend(xs.iter().cloned());
+            all.push(V::I(-8));
+            all.push(V::I(-9));
+            (format!("{}[1..{}]", tuple_lit(&all), xs.len() + 1), format!("(seq{})", canon_list(xs)))
+        }
+        Src::StrSlice(t) => {
+            // 'é' in front: the slice starts at byte offset 2
+            (format!("'é{}zz'[2..{}]", t, 2 + t.len()), format!("(str{})", canon_list(&clusters(t))))
+        }
         Src::HostBytes(n) => {
             let bs: Vec<V> = (0..*n).map(|i| V::I(97 + i as i64)).collect();
             (format!("host_bytes({})", n), format!("(hostbytes{})", canon_list(&bs)))
@@ -477,10 +491,10 @@ impl Pipe {
     }
     fn nonempty_source(&self) -> bool {
         self.has_src(&|s| match s {
-            Src::List(x) | Src::Tuple(x) | Src::Gen(x) | Src::GenObj(x) | Src::Obj(x) | Src::ObjB(x) => !x.is_empty(),
+            Src::List(x) | Src::Tuple(x) | Src::Gen(x) | Src::GenObj(x) | Src::Obj(x) | Src::ObjB(x) | Src::TupleSlice(x) => !x.is_empty(),
             Src::Map(x) => !x.is_empty(),
             Src::Range(a, b, incl) => a < b || (a == b && *incl),
-            Src::Str(s) | Src::Bytes(s) => !s.is_empty(),
+            Src::Str(s) | Src::Bytes(s) | Src::StrSlice(s) => !s.is_empty(),
             Src::Rep(_, n) | Src::HostBytes(n) => *n > 0,
             Src::Once(_) | Src::RepInf(_) => true,
         })
@@ -692,7 +706,10 @@ fn make_case(p: &Pipe, c: &Cons) -> Case {
     let r = render(p);
     let mut lines = r.defs.clone();
     let direct = matches!(c, Cons::Simple("for") | Cons::Simple("unpack"));
-    let bare_container = matches!(p, Pipe::Src(Src::List(_) | Src::Tuple(_) | Src::Map(_) | Src::Str(_) | Src::Range(..)));
+    let bare_container = matches!(
+        p,
+        Pipe::Src(Src::List(_) | Src::Tuple(_) | Src::Map(_) | Src::Str(_) | Src::Range(..) | Src::TupleSlice(_) | Src::StrSlice(_))
+    );
     if let Cons::PeekOps(_) | Cons::PeekCopy(..) = c {
         lines.push(format!("it = {}.peekable()", r.expr));
     } else if c.needs_iter() || (bare_container && !direct) {
@@ -758,7 +775,15 @@ fn bidir_pipe(p: &Pipe) -> bool {
     match p {
         Pipe::Src(s) => matches!(
             s,
-            Src::List(_) | Src::Tuple(_) | Src::Map(_) | Src::Range(..) | Src::Str(_) | Src::ObjB(_) | Src::HostBytes(_)
+            Src::List(_)
+                | Src::Tuple(_)
+                | Src::Map(_)
+                | Src::Range(..)
+                | Src::Str(_)
+                | Src::ObjB(_)
+                | Src::HostBytes(_)
+                | Src::TupleSlice(_)
+                | Src::StrSlice(_)
         ),
         Pipe::Each(_, q) | Pipe::Skip(_, q) | Pipe::Peekable(q) => bidir_pipe(q),
         Pipe::Reversed(_) => true,
@@ -788,7 +813,7 @@ fn elems(flavour: usize, n: usize, base: i64) -> Vec<V> {
         .collect()
 }
 
-const SRC_KINDS: usize = 14;
+const SRC_KINDS: usize = 16;
 
 /// Start values of range sources (selected by the flavour index): small, negative, straddling the
 /// i32 limits (KRange stores bounds that fit in i32 compactly and everything else in the 64-bit
@@ -835,6 +860,8 @@ fn source(kind: usize, n: usize, flavour: usize, base: i64) -> Src {
         10 => Src::Bytes("pqrstu".chars().take(n).collect()),
         11 => Src::Rep(V::I(base), n),
         12 => Src::HostBytes(n),
+        14 => Src::TupleSlice(xs),
+        15 => Src::StrSlice("abédxy".chars().take(n).collect()),
         _ => {
             if n == 1 {
                 Src::Once(V::I(base))
@@ -1279,6 +1306,16 @@ fn main() {
             // host bytes from the back (F-C13-1, fixed) and a copied peekable (F-C13-2, fixed)
             (Pipe::Reversed(bx(Pipe::Src(Src::HostBytes(3)))), Cons::Simple("tolist")),
             (Pipe::Peekable(bx(g(3))), Cons::Copy(1, true)),
+            // 64-bit range representation from the back (seeded C13-mut1), mixed ends
+            (Pipe::Src(Src::Range(1099511627776, 1099511627778, true)), Cons::Calls(dirs("nbbnn"))),
+            (Pipe::Reversed(bx(Pipe::Src(Src::Range(2147483645, 2147483649, true)))), Cons::Simple("tolist")),
+            // copy of a cycle taken in the middle of its second repetition (seeded C13-mut2)
+            (Pipe::Cycle(bx(Pipe::Src(Src::Tuple(ints(3))))), Cons::CopyOps(vec![true; 5], copy_post(false))),
+            (Pipe::Cycle(bx(g(4))), Cons::CopyOps(vec![true; 7], copy_post(false))),
+            // copies of other adaptor states: filled window cache, pending separator, cached peeks
+            (Pipe::Windows(2, bx(g(4))), Cons::CopyOps(vec![true; 2], copy_post(false))),
+            (Pipe::Intersperse(V::I(0), bx(g(3))), Cons::CopyOps(vec![true; 2], copy_post(false))),
+            (Pipe::Src(Src::Tuple(ints(4))), Cons::PeekCopy("pqn".chars().collect(), peek_copy_post(true))),
         ];
         let arr: Vec<serde_json::Value> = picks
             .iter()
@@ -1328,7 +1365,7 @@ fn main() {
             for flavour in 0..RANGE_BASES.len() {
                 // element flavours for sources that carry arbitrary elements, start values for ranges
                 let ok = flavour == 0
-                    || (flavour < 4 && matches!(kind, 0 | 1 | 2 | 3 | 4 | 8 | 9))
+                    || (flavour < 4 && matches!(kind, 0 | 1 | 2 | 3 | 4 | 8 | 9 | 14))
                     || matches!(kind, 5 | 6);
                 if !ok {
                     continue;
@@ -1395,7 +1432,9 @@ fn main() {
     //     the end of the source (second repetition of `cycle`, drained `chain` halves, emptied window
     //     caches …) — optionally after a call from the back, and then copy and original are advanced
     //     in an interleaved order, from both ends
-    let sweep_sources: [(usize, usize); 8] = [(1, 0), (2, 0), (0, 2), (5, 2), (6, 5), (7, 0), (12, 0), (9, 0)];
+    let sweep_sources: [(usize, usize); 14] = [
+        (1, 0), (2, 0), (0, 2), (5, 2), (6, 5), (7, 0), (12, 0), (9, 0), (8, 0), (10, 0), (11, 0), (13, 0), (14, 0), (15, 0),
+    ];
     for (kind, flavour) in sweep_sources {
         for n in 0..=max_len {
             for ad in &ads {
@@ -1407,6 +1446,74 @@ fn main() {
                     ] {
                         if admissible(&p, &c) {
                             cx.push(make_case(&p, &c));
+                        }
+                    }
+                }
+            }
+        }
+    }
+    cx.flush();
+
+    // 2c. the same copy sweep over ordered pairs of the adaptors with internal state
+    let stateful: Vec<Ad> = vec![
+        Ad::Cycle,
+        Ad::Chunks(2),
+        Ad::Windows(2),
+        Ad::Intersperse(V::I(0)),
+        Ad::Peekable,
+        Ad::Skip(1),
+        Ad::Step(2),
+        Ad::Take(3),
+        Ad::Zip(Pipe::Src(Src::Gen(vec![V::I(30), V::I(31), V::I(32)]))),
+        Ad::Chain(Pipe::Src(Src::Tuple(vec![V::I(20), V::I(21)]))),
+        Ad::Flatten,
+        Ad::Enumerate,
+        Ad::Keep("even"),
+        Ad::Reversed,
+    ];
+    for (kind, flavour) in [(2usize, 0usize), (1, 0), (0, 2)] {
+        for n in [2usize, 3] {
+            for a1 in &stateful {
+                for a2 in &stateful {
+                    let p = apply(a2, apply(a1, Pipe::Src(source(kind, n, flavour, 10))));
+                    for k in 0..=(2 * n + 1) {
+                        for c in [
+                            Cons::CopyOps(vec![true; k], copy_post(false)),
+                            Cons::CopyOps(dirs(&format!("{}b", "n".repeat(k))), copy_post(true)),
+                        ] {
+                            if admissible(&p, &c) {
+                                cx.push(make_case(&p, &c));
+                            }
+                        }
+                    }
+                }
+            }
+        }
+    }
+    cx.flush();
+
+    // 2d. back end after partial forward consumption (and vice versa) through every ordered pair of the
+    //     adaptors that pass `next_back` on, over every bidirectional source kind
+    let mut bidi_ads: Vec<Ad> = vec![Ad::Reversed, Ad::Peekable];
+    for f in FNS {
+        bidi_ads.push(Ad::Each(f));
+    }
+    for n in 0..=4 {
+        bidi_ads.push(Ad::Skip(n));
+    }
+    for (kind, flavour) in [(1usize, 0usize), (6, 2), (5, 5), (7, 0), (12, 0), (3, 0), (8, 0), (14, 0), (15, 0)] {
+        for n in 0..=max_len {
+            for a1 in &bidi_ads {
+                for a2 in &bidi_ads {
+                    let p = apply(a2, apply(a1, Pipe::Src(source(kind, n, flavour, 10))));
+                    for k in 0..=3 {
+                        for c in [
+                            Cons::Calls(dirs(&format!("{}{}", "n".repeat(k), "b".repeat(4)))),
+                            Cons::Calls(dirs(&format!("{}{}", "b".repeat(k), "n".repeat(4)))),
+                        ] {
+                            if admissible(&p, &c) {
+                                cx.push(make_case(&p, &c));
+                            }
                         }
                     }
                 }
@@ -1439,7 +1546,7 @@ fn main() {
         json!({"adaptor_instances": ads.len(), "consumer_instances": conss.len(), "source_kinds": SRC_KINDS,
                "source_lengths": format!("0..={}", max_len),
                "depth0": "consumers x kinds x lengths x flavours",
-               "depth1": "adaptor instances x kinds x lengths x 16 consumers; copy sweep: adaptor instances x 8 sources x lengths x copy position k=0..2n+1 x {forward, with back calls}",
+               "depth1": "adaptor instances x kinds x lengths x 16 consumers; copy sweep: adaptor instances x 14 sources x lengths x copy position k=0..2n+1 x {forward, with back calls}",
                "depth2": format!("adaptor instances^2 x kinds {:?} x lengths {:?} x to_list", d2_kinds, d2_lens)}),
     );
 
